@@ -1,6 +1,6 @@
 PROPERTY = 'C21'
 LEVEL = 'proof'
-VERUS = ['verus/C21.rs']
+VERUS = ['verus/C21.rs', 'verus/C21_market.rs']
 TRUSTED = [
     'Verus 0.2026.09.13 + bundled Z3; vstd (FnOnce closures with requires/ensures, `&mut`-returning functions with final(), core::mem::swap, Option::expect)',
     'carriers Clocks{rev, t}, OtherState{rev, d}, PoolStorage{rev, pool}: the revision field plus an opaque payload (the buffer code only copies payloads); field lists of the repo structs compared on every run (R11). StateC{clocks, other} for `State` without the pool table',
@@ -8,7 +8,7 @@ TRUSTED = [
     'rule R19 (logged per use): a zero-argument closure `|| EXPR` passed as the last argument is annotated with its return type and its own body as Verus-checked postcondition; the generic `f: impl FnOnce() -> T` is written as a named type parameter',
 ]
 UNVERIFIED = [
-    'RevertibleBuffer::{pool, pool_mut} (the enum-keyed pool table Pools::get(kind)) and RevertibleBuffer::commit_to_storage (loop over PoolKind::iter(), Vec, event emission by CPI) ARE NOT UNDER CONTRACT: for the market buffer only clocks / other state reads and writes and the begin step are proved; the commit step is proved for the single-pool buffer (RevertiblePoolBuffer) only',
+    'market buffer pool table (verus/C21_market.rs): RevertibleBuffer::{pool, pool_mut, commit_to_storage} ARE under contract with the 16-arm table `Pools::get / get_mut` as an ASSUMED finite map from pool kind to PoolStorage (the kind -> field mapping itself: C17 / C40), `PoolKind::iter()` ASSUMED to visit every kind exactly once (strum EnumIter), and the MarketStateUpdated event built and emitted at the end of the commit CUT (it reads the buffer and writes nothing to the state; a failed emission panics, i.e. the transaction fails)',
     'RevertibleLiquidityMarket deferring mint and burn to commit, and the wiring "every operation begins with start_revertible_operation and ends with commit or is dropped": located by text, not proved',
     'the composition over interleavings is by the invariant (cached revisions never exceed the buffer revision: established by set_rev, preserved by begin) and the view function; the induction over an unbounded history is not mechanised',
     'revision overflow (u64) panics by construction (`expect("rev overflow")`): stated as a precondition of begin',
@@ -16,8 +16,8 @@ UNVERIFIED = [
 ]
 ASSUMPTIONS = []
 MANIFEST = dict(engine='verus',
-    technique='Verus contracts on trait Cache::{cache_get_with, cache_get_mut_with}, the impl_cache! bodies, RevertiblePoolBuffer::{start_revertible_operation, commit_to_storage, pool, pool_mut}, RevertibleBuffer::{clocks, clocks_mut, other, other_mut, rev, start_revertible_operation} and PoolStorage::{pool, pool_mut}, extracted from /repo each run; reads and writes specified through a view function (own write of the current revision, else the stored value)',
-    text='PARTIAL (clocks, other state and the single-pool buffer; not the market pool table nor the market commit). Deductive proof, unbounded over all revisions and payloads: a read returns the value written during the current operation if there is one and the stored value otherwise; the first write of an operation starts from the stored value and marks the entry with the current revision, later writes continue from the operation\'s own value; writing never touches the stored state (it is only borrowed shared); beginning an operation increments the revision, after which every read returns the stored value again -- so an operation never reads what an abandoned one left behind; committing the single-pool buffer stores exactly what the operation observed and leaves the storage untouched if it wrote nothing.',
+    technique='(market buffer pool table: Verus contracts on RevertibleBuffer::{pool, pool_mut, commit_to_storage} over a spec map of pool kinds, loop over the kinds with an invariant) Verus contracts on trait Cache::{cache_get_with, cache_get_mut_with}, the impl_cache! bodies, RevertiblePoolBuffer::{start_revertible_operation, commit_to_storage, pool, pool_mut}, RevertibleBuffer::{clocks, clocks_mut, other, other_mut, rev, start_revertible_operation} and PoolStorage::{pool, pool_mut}, extracted from /repo each run; reads and writes specified through a view function (own write of the current revision, else the stored value)',
+    text='Market buffer: for every pool kind an operation reads its own write of the current revision, else the STORED pool; a write handle starts from what the operation observes and what is written through it is what it observes afterwards (other kinds, clocks, other state untouched); after commit_to_storage every stored pool, the clocks and the other state are the operation\'s write where it wrote and the old stored value where it did not, and the buffer is unchanged. Deductive proof, unbounded over all revisions and payloads: a read returns the value written during the current operation if there is one and the stored value otherwise; the first write of an operation starts from the stored value and marks the entry with the current revision, later writes continue from the operation\'s own value; writing never touches the stored state (it is only borrowed shared); beginning an operation increments the revision, after which every read returns the stored value again -- so an operation never reads what an abandoned one left behind; committing the single-pool buffer stores exactly what the operation observed and leaves the storage untouched if it wrote nothing.',
     note='Partial claim: the enum-keyed pool table and RevertibleBuffer::commit_to_storage are not covered (listed).')
 
 
